@@ -215,6 +215,30 @@ def iter_passes() -> list:
     return out
 
 
+def maybe_keeps_ref() -> list:
+    """Observed on this run: every list class accepts a reference (`_Ref`) to a list attribute of its own kind through
+    both entry points and keeps it as its value.  [(class, form, ok)]"""
+    out = []
+    try:
+        import numpy as np
+
+        import spox._attributes as A
+    except Exception:  # noqa: BLE001
+        return [("<spox._attributes>", "direct", False)]
+    samples = {"AttrInt64s": [3, 1], "AttrFloat32s": [0.5], "AttrStrings": ["a"], "AttrTensors": [np.array([1])]}
+    for cname, items in samples.items():
+        for form in ("direct", "maybe"):
+            try:
+                cls = getattr(A, cname)
+                ref = A._Ref(cls(items, "outer"), "outer", "inner")
+                a = cls(ref, "inner") if form == "direct" else cls.maybe(ref, "inner")
+                p = a._to_onnx()
+                out.append((cname, form, a._value is ref and p.ref_attr_name == "outer" and p.name == "inner"))
+            except Exception:  # noqa: BLE001
+                out.append((cname, form, False))
+    return out
+
+
 def _max_loads(stmts, name: str, live: bool = True):
     """Path-sensitive upper bound of the number of times the *caller's object* bound to `name` is read:
     -> list of (count, still bound to the caller's object) over the paths.  `isinstance(name, …)` does not read
@@ -326,6 +350,9 @@ def emit(info: dict) -> str:
         "    constructors (reads after `value = …`, inside `isinstance(value, …)` and `value is None` do not count) -/",
         "def callerLoads : List (String × Nat) := " + lean_list([f"({lean_str(a)}, {n})" for a, n in info.get("caller_loads", [("<not read>", 99)])]),
         "",
+        "/-- observed on this run: the list classes keep a reference (`_Ref`) handed to `AttrX(...)` / `AttrX.maybe(...)` -/",
+        "def keepsRef : List (String × Form × Bool) := " + lean_list([f"({lean_str(c)}, .{f}, {lean_bool(ok)})" for c, f, ok in info.get("keeps_ref", [("<not probed>", "direct", False)])]),
+        "",
         "end Generated.AttrSites", ""]
     return "\n".join(ls)
 
@@ -406,6 +433,10 @@ def generate(live: bool = True) -> dict:
         info["iter_passes"] = iter_passes() if live else []
     except Exception:  # noqa: BLE001
         info["iter_passes"] = [("<probe failed>", "direct", [("partial", 0)])]
+    try:
+        info["keeps_ref"] = maybe_keeps_ref() if live else []
+    except Exception:  # noqa: BLE001
+        info["keeps_ref"] = [("<probe failed>", "direct", False)]
     try:
         info["caller_loads"] = caller_loads()
     except Exception:  # noqa: BLE001
